@@ -7,6 +7,7 @@ import PyGqlModel.Lemmas.LexRange
 import PyGqlModel.Lemmas.LexRender
 import PyGqlModel.Lemmas.LexChars
 import PyGqlModel.Lemmas.LexTiles
+import PyGqlModel.Lemmas.LexComplete
 
 namespace PyGql.Props.C01
 open PyGql.Lex PyGql.StringUtils
@@ -99,6 +100,113 @@ theorem lex_sound (s : Text) (toks : List Tok) (h : lexAll s = .ok toks) :
 /-- non-vacuity of `lex_sound`: `{a,1.5e05 #c<LF><BOM>"\\n" ...}` (comma, comment, BOM) is accepted -/
 example : (lexAll [123, 97, 44, 49, 46, 53, 101, 48, 53, 32, 35, 99, 10, 65279, 34, 92, 110, 34, 32, 46, 46, 46, 125]).toOption.map (·.map (·.kind)) =
     some [.sof, .curlyL, .name, .float, .string, .ellip, .curlyR, .eof] := by decide
+
+/-! ### completeness: `lex_render` -/
+
+/-- THE FULL STATEMENT `lex_render`: every tiling of a text by ignored runs and complete lexemes (each followed by
+    something its kind allows) is what the lexer returns — so the choice of ignored runs is irrelevant. -/
+def LexRenderStatement : Prop :=
+  ∀ (s : Text) (body : List Tok), Tiles s.length s body → lexAll s = .ok (sofTok :: body)
+
+/-- token kinds for which the completeness of `__next__` is proved: punctuators, `...`, names, quoted strings -/
+def Rendered (k : TokKind) : Prop := k ≠ .int ∧ k ≠ .float ∧ k ≠ .blockString
+
+private theorem lexeme_ne_nil (k : TokKind) (lex v : Text) (hk : Rendered k) (hl : Lexeme k lex v) : lex ≠ [] := by
+  intro h; subst h
+  cases k <;> simp [Lexeme, Spec.Lexical.punctuator, TokKind.constText, Spec.Lexical.isName,
+    Spec.Lexical.stringValue, Rendered] at hl hk
+
+private theorem next_complete (n : Nat) (ign lex rest v : Text) (k : TokKind) (hk : Rendered k)
+    (hrun : IgnRun (lex ++ rest) ign) (hl : Lexeme k lex v) (hf : Follow k lex rest) :
+    next n (ign ++ (lex ++ rest)) = .ok (tokAt n k lex rest v, some rest) := by
+  have punct : ∀ c, Spec.Lexical.punctuator k = some [c] → lex = [c] → v = [c] →
+      next n (ign ++ (lex ++ rest)) = .ok (tokAt n k lex rest v, some rest) := by
+    intro c hp hlex hv
+    subst hlex; subst hv
+    exact next_punct n ign rest c k ((symbolKind_spec c k).mpr hp) hrun
+  cases k with
+  | sof => exact absurd hl (by simp [Lexeme])
+  | eof => exact absurd hl (by simp [Lexeme])
+  | int => exact absurd rfl hk.1
+  | float => exact absurd rfl hk.2.1
+  | blockString => exact absurd rfl hk.2.2
+  | name =>
+    obtain ⟨h1, h2⟩ := hl
+    subst h2
+    exact next_name n ign _ rest h1 hf hrun
+  | string => exact next_string n ign lex rest v hl hf hrun
+  | ellip =>
+    simp only [Lexeme, Spec.Lexical.punctuator, TokKind.constText, Option.some.injEq] at hl
+    obtain ⟨rfl, rfl⟩ := hl
+    exact next_ellip n ign rest hrun
+  | bang | dollar | parenL | parenR | bracketL | bracketR | curlyL | curlyR | colon | equals | atSign | pipe | amp =>
+    simp only [Lexeme, Spec.Lexical.punctuator, TokKind.constText, Option.some.injEq] at hl
+    obtain ⟨rfl, rfl⟩ := hl
+    exact punct _ rfl rfl rfl
+
+private theorem lexLoop_complete (n : Nat) (s : Text) (toks : List Tok) (h : Tiles n s toks)
+    (hk : ∀ t ∈ toks, t.kind = .eof ∨ Rendered t.kind) :
+    ∀ fuel, s.length < fuel → lexLoop n fuel s = .ok toks := by
+  induction h with
+  | eof ign hrun =>
+    intro fuel hf
+    cases fuel with
+    | zero => omega
+    | succ f =>
+      have : next n ign = .ok (eofTok n, none) := by
+        have := row_complete [] ign hrun rfl
+        rw [List.append_nil] at this
+        unfold next; rw [this]
+      simp [lexLoop, this, eofTok]
+  | tok ign lex rest k v toks hrun hl hfo _ ih =>
+    intro fuel hf
+    cases fuel with
+    | zero => omega
+    | succ f =>
+      have hkk : Rendered k := by
+        rcases hk _ (List.mem_cons_self) with h | h
+        · simp only at h; subst h; exact absurd hl (by simp [Lexeme])
+        · exact h
+      have hne := lexeme_ne_nil k lex v hkk hl
+      have hnext := next_complete n ign lex rest v k hkk hrun hl hfo
+      have hlen : rest.length < f := by
+        cases lex with
+        | nil => exact absurd rfl hne
+        | cons x xs => simp at hf; omega
+      have := ih (fun t ht => hk t (List.mem_cons_of_mem _ ht)) f hlen
+      simp [lexLoop, hnext, this, tokAt]
+
+/-- `lex_render_partial`: for every tiling whose tokens are punctuators, `...`, names or quoted strings, `lexAll` returns
+    exactly the tiling's tokens (kinds, spans, values) — whatever ignored runs (white space, line terminators, commas,
+    BOMs, comments) stand between the lexemes, as long as each lexeme is followed by something its kind allows (`Follow`:
+    a name is not directly followed by a name character; `""` not by `"`).
+    MISSING for the full `LexRenderStatement`: completeness of `_read_number` against `isIntValue` / `isFloatValue` and of
+    `_read_block_string` against `blockStringRaw` (their soundness is in `lex_sound`); covered by the correspondence
+    (token sequences under random ignored runs, oracle O3). -/
+theorem lex_render_partial (s : Text) (body : List Tok) (h : Tiles s.length s body)
+    (hk : ∀ t ∈ body, t.kind = .eof ∨ Rendered t.kind) : lexAll s = .ok (sofTok :: body) := by
+  unfold lexAll
+  rw [lexLoop_complete _ _ _ h hk _ (Nat.lt_succ_self _)]
+
+/-- kind and value of a token (what is left when positions are forgotten) -/
+def kv (t : Tok) : TokKind × Text := (t.kind, t.value)
+
+/-- `lex_ignored_invariant_partial`: ignored characters are insignificant. If the lexer accepts `s₁`, then every other
+    text `s₂` tiled by lexemes with the same kinds and values (i.e. `s₁` with its ignored runs replaced by any other
+    admissible ignored runs) is accepted with the same kinds and values. (Partial as `lex_render_partial`: the tokens
+    are punctuators, `...`, names and quoted strings.) -/
+theorem lex_ignored_invariant_partial (s₁ s₂ : Text) (toks₁ body₂ : List Tok) (h₁ : lexAll s₁ = .ok toks₁)
+    (h₂ : Tiles s₂.length s₂ body₂) (hk : ∀ t ∈ body₂, t.kind = .eof ∨ Rendered t.kind)
+    (hsame : toks₁.tail.map kv = body₂.map kv) :
+    ∃ toks₂, lexAll s₂ = .ok toks₂ ∧ toks₂.map kv = toks₁.map kv := by
+  obtain ⟨body₁, rfl, _⟩ := lex_sound s₁ toks₁ h₁
+  refine ⟨sofTok :: body₂, lex_render_partial s₂ body₂ h₂ hk, ?_⟩
+  simp only [List.tail_cons] at hsame
+  simp [hsame]
+
+/-- non-vacuity: `{a}` and ` { ,a #c<LF>}` have the same tokens up to positions -/
+example : ((lexAll [123, 97, 125]).toOption.map (·.map kv)) =
+    ((lexAll [32, 123, 32, 44, 97, 32, 35, 99, 10, 125]).toOption.map (·.map kv)) := by decide
 
 /-- THE FULL STATEMENT of the property's error clause for the lexer: every syntax error reports a
     position inside the submitted text. It is FALSE on today's code (see `error_in_range_refuted`). -/
